@@ -333,7 +333,7 @@ pub fn run<P: Prop>(args: &RunArgs) -> Report {
         .map(|p| std::fs::File::create(p).expect("journal"));
 
     let mut hashes: HashSet<u64> = HashSet::new();
-    const HASH_CAP: usize = 3_000_000;
+    const HASH_CAP: usize = 1_500_000;
     let mut samples: Vec<Value> = Vec::new();
     let mut violations: BTreeMap<String, ViolationRec> = BTreeMap::new();
     let mut evaluations = 0u64;
